@@ -114,9 +114,16 @@ func rtcat(l loc) string {
 	return z
 }
 
-// a: len, indexing (int, int64, uint8 index), []byte, string([]byte), append, copy
+// named string, byte, byte-slice and rune-slice types take the same conversions
+type nS string
+type nB byte
+type nBS []byte
+type nRS []rune
+
+// a: len, indexing (int, int64, uint8 index), []byte, string([]byte), append, copy, named types
 func lineA(s string) string {
 	b := []byte(s)
+	nb := []nB(nS(s))
 	d2 := []byte{0xAA, 0xAA}
 	n2 := copy(d2, s)
 	d5 := []byte{0xAA, 0xAA, 0xAA, 0xAA, 0xAA}
@@ -131,6 +138,8 @@ func lineA(s string) string {
 		bsl(append([]byte{'x'}, s...)),
 		itoa(n2)+","+bsl(d2),
 		itoa(n5)+","+bsl(d5),
+		list(len(nb), func(i int) int { return int(nb[i]) }),
+		bl(string(nS(nBS(b)))),
 	)
 }
 
@@ -158,7 +167,8 @@ func lineB(s string) string {
 		r, w := utf8.DecodeRuneInString(s)
 		u += "," + itoa(int(r)) + "," + itoa(w)
 	}
-	return "r " + sec(pairs, keys, itoa(cnt), rl(rs), bl(string(rs)), u)
+	nr := nRS(nS(s))
+	return "r " + sec(pairs, keys, itoa(cnt), rl(rs), bl(string(rs)), u, rl([]rune(nr)), bl(string(nS(nr))))
 }
 
 // x: s[i] (int and int64 index), s[lo:hi], s[lo:], s[:hi] with bounds in and out of range.
